@@ -151,6 +151,10 @@ class Ctx:
         from vf import boot
         self.evaluations += 1
         boot.reseed(0)
+        if boot.R is not None:
+            # a case is a pure function of its description: no timers or clock value leak from the previous case
+            boot.cancel_all_timers()
+            boot.R.rightNow = 0.0
 
     def drive(self, strategy, n, run_case, shrink=True):
         """Hypothesis-driven search.  `strategy` yields JSON-able case dicts;
